@@ -30,7 +30,7 @@ ASSUMPTIONS = [
     "dtype zoo limited to int/float/bool/datetime64[s]",
 ]
 
-FULL = ["a1", "a2", "ab", "a0", "kf", "km", "kl", "ks", "c", "sx", "si", "pl", "pd", "al", "ix", "ad", "in"]
+FULL = ["a1", "a2", "ab", "a0", "kf", "km", "kl", "ks", "c", "sx", "si", "pl", "pd", "al", "ix", "ad", "in", "a3", "rf"]
 CORE = ["a1", "a2", "kf", "kl", "c"]
 WRITE = ["a1", "a2", "kf", "kl", "c", "w"]
 T0 = np.datetime64("2020-01-01T00:00:00", "s")
@@ -159,6 +159,14 @@ def apply_impl(st, op):
         st["active"][living_idx(st)[0]] = False
     elif op == "ad":  # append relying on the defaults after earlier appends gave explicit values
         st.append(X=p + 0.75, Y=1.0, Z=2.0, tag=77, rt=T0 + 5)
+    elif op == "a3":  # arrays of length ONE next to longer arrays (numpy broadcasting: many particles from one position)
+        st.append(X=np.array([p + 0.25, p + 1.25, p + 2.25]), Y=np.array([4.0]), Z=[2.0], tag=np.array([66]), rt=np.array([T0 + 2]), weight=[0.5])
+    elif op == "rf":  # two refused appends (a misspelt variable, an explicit pid): the caller catches the error and goes on using the state
+        for kw in (dict(X=1.0, Y=1.0, Z=1.0, tag=1, rt=T0, lenght=3.0), dict(pid=p + 5, X=1.0, Y=1.0, Z=1.0, tag=1, rt=T0)):
+            try:
+                st.append(**kw)
+            except ValueError:
+                pass
     else:
         raise util.HarnessError(op)
 
@@ -226,6 +234,11 @@ class Ref:
                 d["X"] += 0.5
         elif op == "ad":
             self.add(p + 0.75, 1.0, 2.0, 77, T0 + 5)
+        elif op == "a3":
+            for k in range(3):
+                self.add(p + k + 0.25, 4.0, 2.0, 66, T0 + 2, 0.0, 0.5)
+        elif op == "rf":
+            pass  # a refused release leaves no trace
         elif op == "in":
             self.inst[self.liv()[0]]["active"] = False
 
